@@ -132,7 +132,7 @@ package resolver
 // would silently change which strategy / tokenizer / alias table the resolvers consult).
 //@ func NewArgResolver
 //@   property C02 C03 C04 C06 C07 C11
-//@   ensures [keeps_the_strategies_in_order] result != nil && result.strategies == s
+//@   ensures [keeps_the_strategies_in_order] result != nil && ((forall j int :: 0 <= j && j < len(s) ==> s[j] != nil) ==> len(result.strategies) == len(s) && (forall j int :: 0 <= j && j < len(s) ==> result.strategies[j] == s[j]))
 //@ func NewFixedValueResolver
 //@   property C02
 //@   ensures [fields_as_given] result != nil && result.id == id && result.value == value
